@@ -29,7 +29,8 @@ Inductive op :=
 | OResetTo (i : nat) (iv : Z)        (* timers[i].reset(iv) *)
 | OUnreg (i : nat)                   (* timers[i].unregister() *)
 | OWork (d : Z)                      (* a busy handler: the clock advances by d *)
-| OFire (k : nat).                   (* app.fire(opev(k)) *)
+| OFire (k : nat)                    (* app.fire(opev(k)) *)
+| OReReg (i : nat).                  (* timers[i].register(app) again, once it has left the tree *)
 
 Inductive gstep := GOps (l : list op) | GYield | GSleep (d : Z).
 
@@ -42,7 +43,7 @@ Inductive ev :=
 | EPrep (i : nat)      (* prepare_unregister(timer i) *)
 | EPrepC (i : nat).    (* prepare_unregister_complete on timer i *)
 
-Record task := mkTask { k_steps : list gstep; k_sleep : option Z }.
+Record task := mkTask { k_steps : list gstep; k_sleep : option Z; k_id : nat }.
 
 Record prog := mkProg {
   p_ops : list (list op);        (* script of opev(k) *)
@@ -58,7 +59,8 @@ Inductive lrec :=
 | LReset (i : nat) (t : Z) (niv : option Z)
 | LUnreq (i : nat) (t : Z)
 | LIter (t : Z) (fired : list nat) (w : option tlv)
-| LDisp (i : nat) (t : Z).
+| LDisp (i : nat) (t : Z)
+| LRereg (i : nat) (t : Z).          (* timer i, out of the tree, was registered again at t *)
 
 Record st := mkSt {
   now : Z;
@@ -68,27 +70,34 @@ Record st := mkSt {
   stims : list (Z * bool * nat);   (* external events still to arrive: time, is-task, script *)
   sched : list nat;                (* recorded order in which simultaneously due timers fire *)
   rlog : list lrec;                (* history, newest first *)
-  halted : bool                    (* the loop sleeps for ever: nothing pending, nothing to arrive *)
+  halted : bool;                   (* the loop sleeps for ever: nothing pending, nothing to arrive *)
+  tsched : list nat;               (* recorded order in which the task set is iterated, tick after tick *)
+  ntask : nat                      (* tasks started so far (the next task's id) *)
 }.
 
 Definition set_now (s : st) (t : Z) : st :=
-  mkSt t (timers s) (queue s) (tasks s) (stims s) (sched s) (rlog s) (halted s).
+  mkSt t (timers s) (queue s) (tasks s) (stims s) (sched s) (rlog s) (halted s) (tsched s) (ntask s).
 Definition set_timers (s : st) (l : list timer) : st :=
-  mkSt (now s) l (queue s) (tasks s) (stims s) (sched s) (rlog s) (halted s).
+  mkSt (now s) l (queue s) (tasks s) (stims s) (sched s) (rlog s) (halted s) (tsched s) (ntask s).
 Definition push_ev (s : st) (e : ev) : st :=
-  mkSt (now s) (timers s) (queue s ++ [e]) (tasks s) (stims s) (sched s) (rlog s) (halted s).
+  mkSt (now s) (timers s) (queue s ++ [e]) (tasks s) (stims s) (sched s) (rlog s) (halted s) (tsched s) (ntask s).
 Definition set_queue (s : st) (q : list ev) : st :=
-  mkSt (now s) (timers s) q (tasks s) (stims s) (sched s) (rlog s) (halted s).
+  mkSt (now s) (timers s) q (tasks s) (stims s) (sched s) (rlog s) (halted s) (tsched s) (ntask s).
 Definition set_tasks (s : st) (l : list task) : st :=
-  mkSt (now s) (timers s) (queue s) l (stims s) (sched s) (rlog s) (halted s).
+  mkSt (now s) (timers s) (queue s) l (stims s) (sched s) (rlog s) (halted s) (tsched s) (ntask s).
 Definition set_stims (s : st) (l : list (Z * bool * nat)) : st :=
-  mkSt (now s) (timers s) (queue s) (tasks s) l (sched s) (rlog s) (halted s).
+  mkSt (now s) (timers s) (queue s) (tasks s) l (sched s) (rlog s) (halted s) (tsched s) (ntask s).
 Definition set_sched (s : st) (l : list nat) : st :=
-  mkSt (now s) (timers s) (queue s) (tasks s) (stims s) l (rlog s) (halted s).
+  mkSt (now s) (timers s) (queue s) (tasks s) (stims s) l (rlog s) (halted s) (tsched s) (ntask s).
 Definition add_log (s : st) (r : lrec) : st :=
-  mkSt (now s) (timers s) (queue s) (tasks s) (stims s) (sched s) (r :: rlog s) (halted s).
+  mkSt (now s) (timers s) (queue s) (tasks s) (stims s) (sched s) (r :: rlog s) (halted s) (tsched s) (ntask s).
+Definition set_tsched (s : st) (l : list nat) : st :=
+  mkSt (now s) (timers s) (queue s) (tasks s) (stims s) (sched s) (rlog s) (halted s) l (ntask s).
+Definition add_task (s : st) (l : list gstep) : st :=
+  mkSt (now s) (timers s) (queue s) (tasks s ++ [mkTask l None (ntask s)]) (stims s) (sched s) (rlog s) (halted s)
+       (tsched s) (S (ntask s)).
 Definition set_halted (s : st) : st :=
-  mkSt (now s) (timers s) (queue s) (tasks s) (stims s) (sched s) (rlog s) true.
+  mkSt (now s) (timers s) (queue s) (tasks s) (stims s) (sched s) (rlog s) true (tsched s) (ntask s).
 
 Fixpoint upd {A} (l : list A) (i : nat) (f : A -> A) : list A :=
   match l, i with
@@ -110,6 +119,7 @@ Definition t_reset (nw : Z) (niv : option Z) (tm : timer) : timer :=
   let iv := match niv with Some v => v | None => t_int tm end in
   mkT (nw + iv) iv (t_persist tm) (t_pend tm) (t_reg tm).
 
+Definition t_rereg (tm : timer) : timer := mkT (t_exp tm) (t_int tm) (t_persist tm) false true.
 Definition t_set_pend (tm : timer) : timer := mkT (t_exp tm) (t_int tm) (t_persist tm) true (t_reg tm).
 (* _do_prepare_unregister_complete: delattr(_unregister_pending), leave the tree.  The event that triggers it is fired
    only by the completion of the timer's own prepare_unregister, i.e. while the flag is set (delattr would raise
@@ -145,6 +155,11 @@ Definition do_op (s : st) (o : op) : st :=
                 | None => s end
   | OWork d => set_now s (now s + Z.max 0 d)
   | OFire k => push_ev s (EOp k)
+  | OReReg i => match nth_error (timers s) i with
+                | Some tm => if negb (t_reg tm) && negb (t_pend tm)
+                             then add_log (push_ev (set_timers s (upd (timers s) i t_rereg)) ENop) (LRereg i (now s))
+                             else s
+                | None => s end
   end.
 
 Definition do_ops (s : st) (l : list op) : st := fold_left do_op l s.
@@ -241,7 +256,7 @@ Definition dispatch (p : prog) (s : st) (e : ev) (more : bool) : st :=
   | EGen => do_gen p s more
   | ETimer i => do_ops (add_log s (LDisp i (now s))) (script (p_onfire p) i)
   | EOp k => do_ops s (script (p_ops p) k)
-  | ETask k => set_tasks s (tasks s ++ [mkTask (script (p_gs p) k) None])
+  | ETask k => add_task s (script (p_gs p) k)
   | ENop => s
   | EPrep i => push_ev s (EPrepC i)
   | EPrepC i => push_ev (set_timers s (upd (timers s) i t_removed)) ENop
@@ -254,18 +269,18 @@ Fixpoint flush (p : prog) (s : st) (batch : list ev) : st :=
   end.
 
 (* next(task): run the generator up to its next yield; result: the state and the task if it is still alive *)
-Fixpoint run_steps (s : st) (l : list gstep) : st * option task :=
+Fixpoint run_steps (s : st) (l : list gstep) (id : nat) : st * option task :=
   match l with
   | [] => (s, None)
-  | GOps o :: r => run_steps (do_ops s o) r
-  | GYield :: r => (s, Some (mkTask r None))
-  | GSleep d :: r => (s, Some (mkTask r (Some (now s + d))))
+  | GOps o :: r => run_steps (do_ops s o) r id
+  | GYield :: r => (s, Some (mkTask r None id))
+  | GSleep d :: r => (s, Some (mkTask r (Some (now s + d)) id))
   end.
 
 Definition step_task (s : st) (k : task) : st * option task :=
   match k_sleep k with
-  | Some e => if e <=? now s then (s, Some (mkTask (k_steps k) None)) else (s, Some k)
-  | None => run_steps s (k_steps k)
+  | Some e => if e <=? now s then (s, Some (mkTask (k_steps k) None (k_id k))) else (s, Some k)
+  | None => run_steps s (k_steps k) (k_id k)
   end.
 
 Fixpoint step_tasks (s : st) (l : list task) (acc : list task) : st * list task :=
@@ -282,9 +297,15 @@ Fixpoint deliver_due (s : st) (l : list (Z * bool * nat)) : st :=
   | x :: r => if fst (fst x) <=? now s then deliver_due (deliver s x) r else set_stims s l
   end.
 
+(* `for task in self._tasks.copy()`: the set is iterated in an order the model takes from the recorded schedule
+   (when its next entries are a permutation of the ids of the tasks alive; otherwise in the order they were started) *)
+Definition pick_tasks (l : list task) (ids : list nat) : list task :=
+  flat_map (fun id => match find (fun k => Nat.eqb (k_id k) id) l with Some k => [k] | None => [] end) ids.
+
 Definition tick (p : prog) (s : st) : st :=
   let s0 := deliver_due s (stims s) in
-  let '(s1, alive) := step_tasks (set_tasks s0 []) (tasks s0) [] in
+  let '(ord, tsch') := reorder (tsched s0) (map k_id (tasks s0)) in
+  let '(s1, alive) := step_tasks (set_tsched (set_tasks s0 []) tsch') (pick_tasks (tasks s0) ord) [] in
   let s2 := set_tasks s1 (alive ++ tasks s1) in
   let s3 := push_ev s2 EGen in
   flush p (set_queue s3 []) (queue s3).
@@ -296,8 +317,8 @@ Fixpoint run (p : prog) (s : st) (n : nat) : st * nat :=
            else let '(s', m) := run p (tick p s) k in (s', S m)
   end.
 
-Definition init (t0 : Z) (sts : list (Z * bool * nat)) (sch : list nat) : st :=
-  mkSt t0 [] [] [] sts sch [] false.
+Definition init (t0 : Z) (sts : list (Z * bool * nat)) (sch tsch : list nat) : st :=
+  mkSt t0 [] [] [] sts sch [] false tsch 0.
 
 Definition history (s : st) : list lrec := rev (rlog s).
 
@@ -314,6 +335,7 @@ Definition dur (num den : Z) (w : tlv) : option Z :=
 
 Definition s_rearm (t : Z) (niv : option Z) (x : stimer) : stimer :=
   mkS t (match niv with Some v => v | None => s_iv x end) (s_p x) (s_alive x).
+Definition s_revive (x : stimer) : stimer := mkS (s_t0 x) (s_iv x) (s_p x) true.
 Definition s_kill (x : stimer) : stimer := mkS (s_t0 x) (s_iv x) (s_p x) false.
 (* a firing re-arms a persistent timer and ends a one-shot *)
 Definition s_fired (t : Z) (x : stimer) : stimer := if s_p x then s_rearm t None x else s_kill x.
@@ -341,6 +363,7 @@ Definition mon_step (num den : Z) (ms : list stimer) (r : lrec) : option (list s
   | LReset i t niv => match nth_error ms i with Some _ => Some (upd ms i (s_rearm t niv)) | None => None end
   | LUnreq i t => match nth_error ms i with Some _ => Some (upd ms i s_kill) | None => None end
   | LDisp _ _ => Some ms
+  | LRereg i t => match nth_error ms i with Some _ => Some (upd ms i s_revive) | None => None end
   | LIter t fired w =>
       if nodupb fired                                               (* nobody fires twice in one iteration *)
          && forallb (fire_ok ms t) fired                            (* never early, only alive timers *)
